@@ -59,10 +59,17 @@ def check_netloc_nfkc(netloc):
         n = remove_char(n, "#")
     if "?" in n:
         n = remove_char(n, "?")
+    if "[" in n:
+        n = remove_char(n, "[")
+    if "]" in n:
+        n = remove_char(n, "]")
     normalized = nfkc(n)
     if n == normalized:
         return None
-    if "/" in normalized or "?" in normalized or "#" in normalized or "@" in normalized or ":" in normalized:
+    # the property lists / ? # @ : ; brackets are screened as well since the fix of the fullwidth
+    # bracket defect (a superset of what C16 demands)
+    if ("/" in normalized or "?" in normalized or "#" in normalized or "@" in normalized or ":" in normalized
+            or "[" in normalized or "]" in normalized):
         raise ValueError("netloc contains invalid characters under NFKC normalization")
     return None
 
